@@ -805,3 +805,40 @@ func (p *Prog) fieldOnlyInitialised(nt *types.Named, idx int) bool {
 	p.fieldInit[key] = ok
 	return ok
 }
+
+
+// Deref: a call origin of a repository function with a body is replaced by
+// the origins of what the function returns for that result (parameters
+// bound to the caller's arguments), recursively; other origins are returned
+// unchanged. Lets value rules see through helpers that compute and return a
+// value.
+func Deref(o *Org, depth int) []*Org {
+	var out []*Org
+	for _, a := range o.Alts() {
+		if a.K == "call" && a.R != nil && depth < 4 {
+			if call, ok := a.V.(*ssa.Call); ok {
+				if sc := staticCallee(call.Common()); sc != nil && InRepo(sc) && sc.Blocks != nil {
+					idx := a.Idx
+					if idx < 0 {
+						idx = 0
+					}
+					if idx < sc.Signature.Results().Len() {
+						nr := a.R.Bind(sc, call)
+						n := 0
+						allInstrs(sc, func(in ssa.Instruction) {
+							if ret, ok := in.(*ssa.Return); ok && idx < len(ret.Results) {
+								n++
+								out = append(out, Deref(nr.Of(ret.Results[idx]), depth+1)...)
+							}
+						})
+						if n > 0 {
+							continue
+						}
+					}
+				}
+			}
+		}
+		out = append(out, a)
+	}
+	return out
+}
